@@ -91,6 +91,25 @@ impl Visitor for C10 {
                 ));
             },
         }
+        // clone_from onto differently shaped values reproduces the value (buffer-reusing clones)
+        for extra in [0usize, 3] {
+            let mut b = p.clone().into_builder().without_qualifiers().with_version("other").with_subpath("x/y");
+            for i in 0..extra + snap.quals.len() {
+                b = match b.clone().with_qualifier(format!("zz{i}"), "v") {
+                    Ok(nb) => nb,
+                    Err(_) => b,
+                };
+            }
+            if let Out::Ok(mut other) = obs::build(b) {
+                match guard("clone_from", || {
+                    other.clone_from(p);
+                    other == *p
+                }) {
+                    Out::Ok(true) => {},
+                    o => return Some(Fail::tagged("clone-from-differs", "", format!("{c:?} ({tp}): clone_from onto another value gave {}", o.kind()))),
+                }
+            }
+        }
         match obs::show(&q) {
             Out::Ok(c2) if c2 == c => None,
             o => Some(Fail::tagged("rebuild-prints-differently", "", format!("{c:?} ({tp}): re-built value prints as {}", match o { Out::Ok(x) => x, o => o.kind() }))),
